@@ -242,6 +242,9 @@ namespace Pistache::Http::Mime
                     double val;
                     if (!match_double(&val, cursor))
                         raise("Invalid quality factor");
+                    // An out-of-range quality is malformed input like any other
+                    if (!(val >= 0.0 && val <= 1.0))
+                        raise("Invalid quality factor");
                     q_ = Q::fromFloat(val);
                 }
                 else
